@@ -1,12 +1,15 @@
 """C20 — Rasterisation marks exactly the bins a geometry covers, on the template's axes."""
+import copy
 import itertools
 import json
 from fractions import Fraction
 
 from ..core import Op, jkey
 from ..rat import rat, frac
-from ..axis_common import guarded, fl, is_err, rats
+from ..axis_common import guarded, fl, is_err, rats, ulp_up, ulp_down
 from .. import gen_geom
+from .. import c20_build as B
+from .. import history
 
 PROPERTY = "C20"
 LEAN_MODULE = "Proofs.C20"
@@ -16,7 +19,8 @@ THEOREMS = [_T + n for n in [
     "C20_untouched_fill", "C20_axes", "C20_values_length_rejected", "C20_scalar_value", "C20_box_centre_rule",
     "C20_general_cell", "C20_general_axes", "C20_general_values", "C20_general_box", "C20_point_cell",
     "C20_polygon_centre_rule", "C20_all_touched_adds", "C20_defaults", "C20_clamp_index",
-    "C20_box_cells_by_coordinates"]]
+    "C20_box_cells_by_coordinates", "C20_lattice_bin", "C20_lattice_point_bin", "C20_lattice_floor",
+    "C20_positional_call", "C20_bound_arguments", "C20_history_independent", "C20_poison_local"]]
 LEVEL_TEXT = ("Lean theorems over the index-space model of rasterize. Box model: a bounding box / time interval covers exactly "
               "the bins from the one containing its start (inclusive) to the one containing its end (exclusive) on each "
               "axis, in bin indices and end to end in terms of the template's coordinates (through C16's lookup with "
@@ -27,24 +31,49 @@ LEVEL_TEXT = ("Lean theorems over the index-space model of rasterize. Box model:
               "the same cell / axes / values theorems hold, under the box rule it coincides with the box model, under the "
               "point rule a Point marks exactly its bin, under the centre rule a polygon's cell holds its value iff the "
               "centre is inside the polygon mapped to bin indices, under the superset contract all_touched only adds "
-              "cells. Ties: signature defaults and MAX_FREQUENCY re-extracted as obligations, the clamped lookup of "
-              "get_coord_index proved equal to the model for all inputs by symbolic trace, exact differential runs of "
-              "both models (templates 1-8 x 1-8, both orders, extra dimensions, regular and irregular axes, all "
-              "geometry types, integer and fractional values, fills, dtypes, defaults, all_touched both ways) with "
-              "rasterio's answers for the model's images as the rasteriser; box and point rules monitored exhaustively "
-              "on the library every run, centre rule and all_touched superset on every generated shape.")
+              "cells. Regular (range) axes: every lattice point start + k*step and every bin centre lies in bin k, and "
+              "inside the axis the bin is floor((v - start) / step) over the rationals. The call: passing the first k "
+              "optional arguments positionally in the documented order binds like the all-keyword call (Python's binding "
+              "modelled, parameter order tied to the signature). Histories: in a session of calls and of rasters edited "
+              "by the caller every call returns the answer to its own request and leaves the rasters already held as "
+              "they are. Ties: signature defaults, parameter order and MAX_FREQUENCY re-extracted as obligations, the "
+              "clamped lookup of get_coord_index proved equal to the model for all inputs by symbolic trace, exact "
+              "differential runs of both models (templates 1-8 x 1-8 and up to 1025 bins, both orders, extra dimensions, "
+              "regular, irregular, integer-index and range-built axes, all geometry types and ways of building them, "
+              "integer and fractional values, fills, dtypes, defaults, positional and keyword calls, all_touched both "
+              "ways, every pair of option classes) with rasterio's answers for the model's images as the rasteriser; "
+              "every lattice point of non-dyadic range axes as a box corner; sessions of calls on shared, re-used and "
+              "changed objects judged step by step; box and point rules monitored exhaustively on the library every run, "
+              "centre rule and all_touched superset on every generated shape.")
 LEVEL_NOTE = ("Unmodelled: rasterio / GDAL scan conversion (a parameter of the general model; its answers for the model's "
               "index-space images are observed on the library in every differential case). For integer-cornered boxes and "
               "points its rule is a run-time-monitored contract evaluated exhaustively on a small raster; for general "
               "polygons the centre rule (cells whose centre is off the boundary) and for all non-line shapes the "
               "all_touched superset are monitored on every generated shape; line burning is not characterised (known "
               "finding C20-K1). shapely.transform / geometry_to_shapely and xarray are tied by correspondence only; the "
-              "straight-line part of get_coord_index by symbolic trace with pandas' slice bound as a symbol.")
+              "straight-line part of get_coord_index by symbolic trace with pandas' slice bound as a symbol. Binary64 "
+              "rounding is outside the rational model: an implementation that locates bins by arithmetic is right over "
+              "the rationals (C20_lattice_floor) and can only be told apart on the real code, which the sweep of every "
+              "lattice point of non-dyadic axes and the ulp / 1e-12..1e-6 offsets do. State carried between calls is "
+              "outside the (pure) model: C20_history_independent states what a session must return, the history runs "
+              "(generator-bounded) observe it on the real code.")
 TECHNIQUE = ("Lean 4 proof over index-space model with the rasteriser as a parameter; table and symbolic-trace "
-             "obligations; exact differential correspondence; library contracts and polygon monitors")
-RULE = ("templates of 1-8 x 1-8 bins in both dimension orders (optionally with a third dimension), dyadic, decimal and "
-        "irregular spacings, lists of 0-4 geometries (box-like for the box model, all nine types for the general model) "
-        "with ends on, between and beyond coordinates; non-trivial = the implementation returned a raster "
+             "obligations; exact differential correspondence over construction paths, option pairs, lattice points and "
+             "call histories; library contracts and polygon monitors")
+RULE = ("templates of 1-8 x 1-8 bins in both dimension orders (optionally with a third dimension; built directly, "
+        "transposed, cut out of a larger template, with coordinates registered in the other order, with extra "
+        "coordinates, with integer contents), dyadic, decimal, irregular and integer-index spacings and axes built by "
+        "create_time_range / create_frequency_range (non-dyadic step stored in the 'step' attribute), lists of 0-4 "
+        "geometries (box-like for the box model, all nine types for the general model; built by geometry_validate, "
+        "constructor, tuples, ints, numpy scalars, JSON, model_copy, re-validation) with ends on, between, below and "
+        "beyond coordinates; optional arguments by keyword, all by keyword in reverse order, or the first 1-6 "
+        "positionally; every pair of option classes at least once (covering array); every lattice point and bin centre "
+        "of seven non-dyadic range axes as a box corner (stored coordinate, decimal literal, k/(1/step), one ulp either "
+        "side); offsets of one ulp and 1e-12..1e-6 relative around every coordinate at magnitudes 0..1e6; more than 16 / "
+        "256 / 1024 geometries, vertices and bins; histories of 3-5 calls in one process (x, a neighbour differing in "
+        "exactly one part, x again) on fresh, shared, re-assigned, in-place edited and model_copy'd templates / "
+        "geometries / lists, with answer-determining arguments snapshotted around every call, results edited by the "
+        "caller and every result re-read after the later calls; non-trivial = the implementation returned a raster "
         "with at least one burnt cell; distinct = distinct (operation, input)")
 TRUSTED = ["rasterio.features.rasterize (box rule monitored as a contract on every run), shapely.transform, "
            "xarray DataArray construction"]
@@ -58,36 +87,21 @@ ASSUMPTIONS = ["rasterio burns an integer-cornered box into exactly the cells wh
                "of the general model, which folds rasterio's single-shape answers)"]
 NOT_COMPARED = ["error messages (only the error class)", "attributes and name of the result",
                 "which cells GDAL burns for a given index-space shape (observed on rasterio, not modelled; contracts only)",
-                "cells whose centre lies exactly on the boundary of the index-space polygon (centre-rule contract)"]
+                "cells whose centre lies exactly on the boundary of the index-space polygon (centre-rule contract)",
+                "the template's contents and attributes after a call (only what determines a later answer is "
+                "snapshotted around a call: geometry coordinates, value lists, the template's dimensions and its time / "
+                "frequency coordinates)",
+                "xdim / ydim other than the documented defaults (given explicitly as 'time' / 'frequency', as str or as "
+                "arrays.Dimensions members)",
+                "float32 coordinate axes (pandas casts the query to float32: known finding C16-2)"]
 
 LINE_TYPES = ("LineString", "MultiLineString")
 DTYPES = ["float32", "float64", "int32", "int16", "uint8"]
 
 
 # ------------------------------------------------------------------ implementation
-def _template(inp):
-    import numpy as np
-    import xarray as xr
-    from soundevent import arrays
-    t = np.array(fl(inp["time"]), dtype=float)
-    fr = np.array(fl(inp["freq"]), dtype=float)
-    tv = arrays.create_time_dim_from_array(t)
-    fv = arrays.create_frequency_dim_from_array(fr)
-    rs = np.random.RandomState(inp.get("contents", 0))
-    dims = ["time", "frequency"] if inp["time_first"] else ["frequency", "time"]
-    extra = inp.get("extra_dim")          # position of a third dimension ("channel", 2 entries), or None
-    if extra is not None:
-        dims.insert(extra, "channel")
-    size = {"time": len(t), "frequency": len(fr), "channel": 2}
-    data = rs.uniform(-5, 5, size=tuple(size[d] for d in dims))
-    if inp.get("contents", 0) == 0:
-        data = np.zeros_like(data)
-    return xr.DataArray(data, dims=tuple(dims), coords={"time": tv, "frequency": fv})
-
-
-def _num(x):
-    """a value / fill of the request: ints stay ints, rational strings become floats"""
-    return x if isinstance(x, int) else float(frac(x))
+# live objects (template, geometries, the call and the ways of building / passing them): harness/c20_build.py
+_num = B.num
 
 
 def _canon(r, inp):
@@ -98,47 +112,22 @@ def _canon(r, inp):
     v = np.asarray(r.values)
     if v.ndim != 2 or not np.all(np.isfinite(v)):
         return {"raise": "crash:not-a-finite-2d-raster"}
-    return {"val": {"dims": list(r.dims), "time": [rat(float(c)) for c in r.coords["time"].values],
+    memo = {}
+
+    def cell(x):                      # a raster holds few distinct numbers
+        x = float(x)
+        if x not in memo:
+            memo[x] = rat(x)
+        return memo[x]
+    return {"val": {"dims": [str(getattr(d, "value", d)) for d in r.dims],
+                    "time": [rat(float(c)) for c in r.coords["time"].values],
                     "freq": [rat(float(c)) for c in r.coords["frequency"].values],
-                    "grid": [[rat(float(x)) for x in row] for row in v]}}
-
-
-def _dtype_arg(inp):
-    import numpy as np
-    dt = inp.get("dtype") or "float32"
-    how = inp.get("dtype_as", "str")
-    return {"str": dt, "np": np.dtype(dt), "type": np.dtype(dt).type}[how]
-
-
-def _values_arg(inp, vals):
-    import numpy as np
-    if isinstance(vals, list):
-        vs = [_num(v) for v in vals]
-        if inp.get("values_np"):
-            vs = [np.float64(v) if isinstance(v, float) else np.int64(v) for v in vs]
-        return tuple(vs) if inp.get("values_tuple") else vs
-    v = _num(vals)
-    if inp.get("values_np"):
-        v = np.float64(v) if isinstance(v, float) else np.int64(v)
-    return v
+                    "grid": [[cell(x) for x in row] for row in v.tolist()]}}
 
 
 def _call(inp, geoms=None, all_touched=None, values=None):
     """the real call; keys that are absent / None in the request are left to the signature's defaults"""
-    from soundevent.geometry import rasterize
-    gs = [gen_geom.to_data(g) for g in (inp["geoms"] if geoms is None else geoms)]
-    kw = {}
-    vals = inp.get("values") if values is None else values
-    if vals is not None:
-        kw["values"] = _values_arg(inp, vals)
-    if inp.get("fill") is not None:
-        kw["fill"] = _num(inp["fill"])
-    if inp.get("dtype") is not None:
-        kw["dtype"] = _dtype_arg(inp)
-    at = inp.get("all_touched") if all_touched is None else all_touched
-    if at is not None:
-        kw["all_touched"] = at
-    return rasterize(gs, _template(inp), **kw)
+    return B.call(inp, B.geometries(inp, geoms), B.template(inp), all_touched=all_touched, values=values)
 
 
 @guarded
@@ -157,8 +146,8 @@ def _holds_valid_request(ctx, inp, out):
 
 
 def _nontrivial(inp, out):
-    fill = frac(inp["fill"]) if inp.get("fill") is not None else 0
-    return (not is_err(out)) and any(frac(x) != fill for row in out["val"]["grid"] for x in row)
+    fill = rat(frac(inp["fill"])) if inp.get("fill") is not None else "0"
+    return (not is_err(out)) and any(x != fill for row in out["val"]["grid"] for x in row)
 
 
 # ---- monitor for general geometries: the real code only
@@ -252,6 +241,7 @@ def _holds_monitor(ctx, inp, out):
 POLY_SHAPES = ("Polygon", "MultiPolygon")
 LINE_SHAPES = ("LineString", "MultiLineString")
 _ORACLE = {}
+_CONTRACTED = set()
 
 
 def _oracle(shape, all_touched, nx, ny):
@@ -305,6 +295,12 @@ def _holds_general(ctx, inp, out):
     for k, (g, sh) in enumerate(zip(inp["geoms"], img["shapes"])):
         if sh["type"] in LINE_SHAPES:
             continue
+        seen = (jkey(sh), nx, ny)
+        if seen in _CONTRACTED:                 # the contracts of this shape were evaluated earlier in this run
+            continue
+        if len(_CONTRACTED) > 50000:
+            _CONTRACTED.clear()
+        _CONTRACTED.add(seen)
         plain, touched = _oracle(sh, False, nx, ny), _oracle(sh, True, nx, ny)
         ok = all(touched[i][j] or not plain[i][j] for i in range(nx) for j in range(ny))
         ctx.contract("rasterio-touched-superset", ok, {"shape": sh, "raster": [nx, ny]}, plain,
@@ -434,6 +430,26 @@ def _tables(ctx):
     except Exception as e:  # noqa: BLE001 - the signature changed shape: the tie is not re-established
         ctx.pre_failed.append("rasterize_defaults")
         ctx.fail("obligation", "rasterize_defaults", detail=f"defaults of rasterize could not be extracted: {e!r}")
+    # the positional order of the parameters (C20_positional_call is about this order): the model's table must be
+    # the leading parameters of the signature, all positional-or-keyword; further parameters need defaults
+    try:
+        names = list(P)
+        kinds_ok = all(P[k].kind is inspect.Parameter.POSITIONAL_OR_KEYWORD for k in names[:8])
+        rest_ok = all(P[k].default is not inspect.Parameter.empty or P[k].kind in
+                      (inspect.Parameter.VAR_KEYWORD, inspect.Parameter.VAR_POSITIONAL) for k in names[8:])
+        model_order = ctx.model("param_order", {})
+        if not (kinds_ok and rest_ok):
+            raise ValueError(f"parameters are not all positional-or-keyword / optional: {names!r}")
+        if tuple(model_order[2:]) != tuple(B.OPTIONAL_ORDER):
+            raise ValueError("the harness passes positional arguments in another order than the model's table")
+        lst = "[" + ", ".join(json.dumps(str(n)) for n in names) + "]"
+        ctx.obligation("rasterize_params",
+                       f"theorem extracted_rasterize_params : SE.Raster.paramOrder = "
+                       f"List.take SE.Raster.paramOrder.length {lst} := by decide\n",
+                       {"table": "rasterize signature: parameter order", "value": repr(names)[:200]})
+    except Exception as e:  # noqa: BLE001 - the signature changed shape: the tie is not re-established
+        ctx.pre_failed.append("rasterize_params")
+        ctx.fail("obligation", "rasterize_params", detail=f"parameter order of rasterize could not be tied: {e!r}")
     m = getattr(data, "MAX_FREQUENCY", None)
     if isinstance(m, bool) or not isinstance(m, (int, float)) or m != m or m in (float("inf"), float("-inf")):
         ctx.pre_failed.append("MAX_FREQUENCY")
@@ -637,60 +653,246 @@ def _unclose(g):
     return {"type": "MultiPolygon", "coordinates": [[cut(r) for r in poly] for poly in g["coordinates"]]}
 
 
+# ---- one request over all nine geometry types, every option class either fixed (`fix`) or drawn
+PAIR_DIMS = {
+    "gtype": list(gen_geom.TYPES),
+    "shape": ["square", "wide", "tall", "row", "col"],      # wide: more time bins, tall: more frequency bins
+    "time_first": [False, True],
+    "extra_dim": [None, 0, 1, 2],
+    "all_touched": [None, False, True],
+    "fill": ["absent", "zero", "int", "frac"],
+    "dtype": [None] + DTYPES,
+    "values_kind": ["absent", "scalar", "list", "tuple", "np", "wrong"],
+    "reach": ["inside", "above", "below", "on-last"],       # where the first geometry lies relative to the axes
+    "axis": ["half", "decimal", "irregular", "range"],      # range: built by create_*_range, 'step' attribute
+    "call_as": ["kw", "kw_all", "pos1", "pos3", "pos6"],
+    "geom_build": list(B.GEOM_BUILDS),
+    "tpl_how": list(B.TPL_HOWS),
+}
+INT_DTYPES = ("int32", "int16", "uint8")
+
+
+def _pair_ok(d1, v1, d2, v2):
+    """option values that cannot go together inside the property's domain"""
+    c = {d1: v1, d2: v2}
+    return not (c.get("fill") == "frac" and c.get("dtype") in INT_DTYPES)
+
+
+def _shape_of(rng, shape):
+    if shape == "square":
+        n = rng.randint(2, 6)
+        return n, n
+    if shape == "wide":
+        nf = rng.randint(1, 6)
+        return rng.randint(nf + 1, 8), nf
+    if shape == "tall":
+        nt = rng.randint(1, 6)
+        return nt, rng.randint(nt + 1, 8)
+    if shape == "row":
+        return 1, rng.randint(2, 8)
+    return rng.randint(2, 8), 1
+
+
+def _range_axis(rng, n, which, positive=False):
+    """an axis as create_time_range / create_frequency_range makes it (numpy.arange, non-dyadic step, 'step' attribute)"""
+    if which == "time":
+        a, s = rng.choice([0.5, 3.0] if positive else [0.0, 0.0, 0.5, 3.0]), rng.choice([0.01, 0.1, 0.004, 0.05])
+        if a == 0.0 and rng.random() < 0.3:
+            spec = {"start": rat(a), "stop": rat(n * s), "samplerate": int(round(1 / s))}
+        else:
+            spec = [rat(a), rat(a + n * s), rat(s)]
+    else:
+        a, s = rng.choice([100.0, 1000.0] if positive else [0.0, 0.0, 100.0, 1000.0]), rng.choice([0.3, 100.1, 43.066, 0.1, 1000 / 3])
+        spec = [rat(a), rat(a + n * s), rat(s)]
+    vals, _step = _built_axis(which, spec)
+    if not vals:
+        vals, spec = [a], None
+    return vals, spec
+
+
+def _region(ax, reach):
+    """the interval of one axis in which a geometry of the given reach is drawn (never below 0)"""
+    lo, hi = ax[0], ax[-1]
+    step = (ax[1] - ax[0]) if len(ax) > 1 else 1.0
+    if reach == "above":
+        return (lo + hi) / 2, hi + 2.5 * step + 1
+    if reach == "below":
+        return max(0.0, lo - 2 * step - 1), (lo + hi) / 2 + step / 2
+    return max(0.0, lo - step / 2), hi + step
+
+
+def _on_last(rng, g, t, fr):
+    """a vertex exactly on the last coordinate of each axis"""
+    ty, lt, lf = g["type"], rat(t[-1]), rat(fr[-1])
+    if ty == "TimeStamp":
+        return {"type": ty, "coordinates": lt}
+    if ty == "TimeInterval":
+        return {"type": ty, "coordinates": [rat(t[0]), lt] if rng.random() < 0.5 else [lt, rat(t[-1] + 1)]}
+    if ty == "Point":
+        return {"type": ty, "coordinates": [lt, lf]}
+    if ty == "BoundingBox":
+        return {"type": ty, "coordinates": [rat(t[0]), rat(fr[0]), lt, lf] if rng.random() < 0.5
+                else [lt, lf, rat(t[-1] + 1), rat(fr[-1] + 1)]}
+    if ty == "MultiPoint":
+        return {"type": ty, "coordinates": [[lt, lf]] + g["coordinates"][1:]}
+    if ty == "LineString":
+        return {"type": ty, "coordinates": g["coordinates"][:-1] + [[rat(max(t[-1], float(frac(g["coordinates"][0][0])))), lf]]}
+    return g          # polygons: their reach is given by the region they are drawn in
+
+
+def _typed_geometry(rng, ty, t0, t1, f0, f1):
+    """a valid geometry of exactly the type `ty` in the region (gen_valid falls back to a box for unlucky polygons)"""
+    g = gen_geom.gen_valid(rng, ty, tmin=t0, tmax=t1, fmin=f0, fmax=f1, k=3)
+    if g["type"] == ty:
+        return g
+    tri = [[rat(t0), rat(f0)], [rat(t1), rat(f0)], [rat(t1), rat(f1)], [rat(t0), rat(f0)]]
+    return {"type": ty, "coordinates": [tri] if ty == "Polygon" else [[tri]]}
+
+
+def _general_case(ctx, rng, fix=None, prev_geoms=None):
+    fix = fix or {}
+    pick = lambda dim, options=None: fix[dim] if dim in fix else rng.choice(options or PAIR_DIMS[dim])
+    shape = fix.get("shape")
+    nt, nf = _shape_of(rng, shape) if shape else (rng.randint(1, 8), rng.randint(1, 8))
+    spacing = pick("axis", ["half", "decimal", "irregular", "irregular", "range"])
+    reach = pick("reach", ["inside", "inside", "above", "below", "on-last"])
+    inp = {}
+    off_t, off_f = (1.5, 2.0) if reach == "below" else (0.0, 0.0)     # room below the first coordinate
+    if spacing == "half":
+        t, fr = [i * 0.5 for i in range(nt)], [i * 1.0 for i in range(nf)]
+    elif spacing == "decimal":
+        t, fr = [0.25 + i * 0.1 for i in range(nt)], [0.5 + i * 0.3 for i in range(nf)]
+    elif spacing == "irregular":
+        t = _irregular(rng, nt, "time")
+        fr = [x / 250 for x in _irregular(rng, nf, "frequency")]
+    else:
+        t, inp["time_range"] = _range_axis(rng, nt, "time", reach == "below")
+        fr, inp["freq_range"] = _range_axis(rng, nf, "freq", reach == "below")
+        inp["time_via"] = "range" if inp["time_range"] else "array"
+        inp["freq_via"] = "range" if inp["freq_range"] else "array"
+    if spacing != "range" and reach == "below":
+        t, fr = [c + off_t for c in t], [c + off_f for c in fr]
+    if spacing in ("half", "decimal"):
+        inp["time_via"] = rng.choice(["array", "array", "array_step", "plain"])
+        inp["freq_via"] = rng.choice(["array", "array", "array_step", "plain"])
+    if spacing == "half" and rng.random() < 0.3:
+        inp["freq_dtype"] = rng.choice(["int64", "int32"])      # frequency bins 0, 1, 2, ... as an integer index
+        if rng.random() < 0.5:
+            t = [float(2 * i) + (2.0 if reach == "below" else 0.0) for i in range(nt)]
+            inp["time_dtype"] = "int64"
+        ctx.tally("general-axis:integer-index")
+    ctx.tally("general-axis:" + spacing)
+    gtype = fix.get("gtype")
+    k = rng.choice([0, 1, 1, 2, 2, 3, 4]) if gtype is None else rng.choice([1, 1, 2, 3])
+    if prev_geoms is not None and not fix and rng.random() < 0.15:
+        geoms = prev_geoms                    # the same geometries on another template (no state is carried over)
+        ctx.tally("general:geometries-reused")
+    else:
+        tp, fp = _positions(rng, t), _positions(rng, fr)
+        geoms = []
+        for gi in range(k):
+            ty = gtype if (gi == 0 and gtype) else rng.choice(ALL_TYPES)
+            (t0, t1), (f0, f1) = _region(t, reach if gi == 0 else "inside"), _region(fr, reach if gi == 0 else "inside")
+            g = _typed_geometry(rng, ty, t0, max(t1, t0 + 1.5), f0, max(f1, f0 + 1.5))
+            if gi == 0 and reach == "on-last":
+                g = _on_last(rng, g, t, fr)
+            elif gi == 0 and reach != "inside":
+                pass
+            elif rng.random() < 0.4:
+                g = _snap(rng, g, tp, fp)
+            elif g["type"] == "BoundingBox" and rng.random() < 0.5:
+                g = _box(rng, tp, fp)
+                if gtype == "BoundingBox" and gi == 0 and g["type"] != "BoundingBox":
+                    g = {"type": "BoundingBox", "coordinates": [g["coordinates"][0], rat(fp[0]), g["coordinates"][1], rat(fp[-1])]}
+            elif g["type"] in POLY_SHAPES and rng.random() < 0.3:
+                g = _unclose(g)               # rings given without the closing vertex (shapely closes them)
+                ctx.tally("general:unclosed-rings")
+            geoms.append(g)
+    for g in geoms:
+        ctx.tally("general-geom:" + g["type"])
+    dtype = pick("dtype", [None, None] + DTYPES)
+    fk = pick("fill", ["absent", "absent", "zero", "int", "int", "frac"] if dtype in (None, "float32", "float64")
+              else ["absent", "absent", "zero", "int", "int"])
+    if fk == "frac" and dtype in INT_DTYPES:
+        dtype = "float32"
+    fill = {"absent": None, "zero": 0, "int": rng.choice([7, 1] if dtype == "uint8" else [-1, 7, 1]),
+            "frac": rat(rng.choice([Fraction(-1, 2), Fraction(1, 4), Fraction(5, 2)]))}[fk]
+    pool = _value_pool(dtype or "float32", 0 if fill is None else fill)
+    vals = [rng.choice(pool) for _ in geoms]
+    inp.update({"time": rats(t), "freq": rats(fr), "time_first": pick("time_first"), "geoms": geoms, "fill": fill,
+                "dtype": dtype, "dtype_as": rng.choice(["str", "str", "np", "type"]),
+                "all_touched": pick("all_touched", [None, False, True, True]), "contents": rng.choice([0, 1, 2]),
+                "extra_dim": pick("extra_dim", [None, None, None, 0, 1, 2]), "twice": rng.random() < 0.1})
+    vk = pick("values_kind", ["absent", "scalar", "list", "list", "list", "tuple", "np", "wrong"])
+    inp["values_tuple"], inp["values_np"] = vk == "tuple" or (vk != "list" and rng.random() < 0.2), vk == "np"
+    inp["values"] = {"absent": None, "scalar": vals[0] if vals else 1,
+                     "wrong": (vals + [3]) if (rng.random() < 0.5 or not vals) else vals[:-1]}.get(vk, vals)
+    ca = pick("call_as", ["kw", "kw", "kw", "kw_all", "pos1", "pos2", "pos3", "pos4", "pos5", "pos6"])
+    inp["call_as"] = ["pos", int(ca[3:])] if ca.startswith("pos") else ca
+    inp["geom_build"] = pick("geom_build", ["validate", "validate", "validate"] + list(B.GEOM_BUILDS))
+    inp["tpl_how"] = pick("tpl_how", [None, None, None, None] + list(B.TPL_HOWS))
+    inp["geoms_seq"] = rng.choice(["list", "list", "list", "tuple"])
+    inp["fill_np"], inp["at_np"] = rng.random() < 0.15, rng.random() < 0.15
+    inp["dims_as"] = rng.choice([None, None, None, "str", "enum"])
+    for key in ("values", "fill", "dtype", "all_touched"):
+        if inp[key] is None:
+            ctx.tally("general-default:" + key)
+    ctx.tally("general-call:" + ca)
+    ctx.tally("general-build:" + inp["geom_build"])
+    ctx.tally("general-template:" + str(inp["tpl_how"]))
+    ctx.tally("general-reach:" + reach)
+    return inp
+
+
 def _general_cases(ctx, n):
     """requests over all nine geometry types; keys left out of the request are left to rasterize's defaults"""
-    rng = ctx.rng
     prev = None
     for _ in range(n):
-        nt, nf = rng.randint(1, 8), rng.randint(1, 8)
-        spacing = rng.choice(["half", "decimal", "irregular"])
-        if spacing == "half":
-            t, fr = [i * 0.5 for i in range(nt)], [i * 1.0 for i in range(nf)]
-        elif spacing == "decimal":
-            t, fr = [0.25 + i * 0.1 for i in range(nt)], [0.5 + i * 0.3 for i in range(nf)]
-        else:
-            t = _irregular(rng, nt, "time")
-            fr = [x / 250 for x in _irregular(rng, nf, "frequency")]
-        ctx.tally("general-axis:" + spacing)
-        k = rng.choice([0, 1, 1, 2, 2, 3, 4])
-        if prev is not None and rng.random() < 0.15:
-            geoms = prev                          # the same geometries on another template (no state is carried over)
-            ctx.tally("general:geometries-reused")
-        else:
-            tp, fp = _positions(rng, t), _positions(rng, fr)
-            geoms = []
-            for _g in range(k):
-                g = gen_geom.gen_valid(rng, rng.choice(ALL_TYPES), tmax=max(t[-1] + 1, 1.5), fmax=max(fr[-1] + 1, 1.5), k=3)
-                if rng.random() < 0.4:
-                    g = _snap(rng, g, tp, fp)
-                elif g["type"] == "BoundingBox" and rng.random() < 0.5:
-                    g = _box(rng, tp, fp)
-                elif g["type"] in POLY_SHAPES and rng.random() < 0.3:
-                    g = _unclose(g)               # rings given without the closing vertex (shapely closes them)
-                    ctx.tally("general:unclosed-rings")
-                geoms.append(g)
-        prev = geoms
-        for g in geoms:
-            ctx.tally("general-geom:" + g["type"])
-        dtype = rng.choice([None, None] + DTYPES)
-        fill = rng.choice([None, None, 0, -1, 7, 1])
-        if dtype == "uint8" and fill is not None:
-            fill = abs(fill)
-        if dtype in (None, "float32", "float64") and rng.random() < 0.15:
-            fill = rat(rng.choice([Fraction(-1, 2), Fraction(1, 4), Fraction(5, 2)]))
-        pool = _value_pool(dtype or "float32", 0 if fill is None else fill)
-        vals = [rng.choice(pool) for _ in geoms]
-        inp = {"time": rats(t), "freq": rats(fr), "time_first": rng.random() < 0.5, "geoms": geoms, "fill": fill,
-               "dtype": dtype, "dtype_as": rng.choice(["str", "str", "np", "type"]),
-               "all_touched": rng.choice([None, False, True, True]), "contents": rng.choice([0, 1, 2]),
-               "extra_dim": rng.choice([None, None, None, 0, 1, 2]), "twice": rng.random() < 0.1}
-        _values_variant(rng, vals, inp)
-        if rng.random() < 0.2:
-            inp["values"] = None                  # default: the value 1 for every geometry
-        for key in ("values", "fill", "dtype", "all_touched"):
-            if inp[key] is None:
-                ctx.tally("general-default:" + key)
+        inp = _general_case(ctx, ctx.rng, None, prev)
+        prev = inp["geoms"]
         yield inp
+
+
+def _pairwise_cases(ctx, rounds=1):
+    """HISTORIES.md 3: every pair of option values (geometry type x template shape x dimension order x extra dimension
+    x all_touched x fill x dtype x kind of value list x reach of the geometry x axis kind x way of calling x way of
+    building geometries x way of building the template) occurs in at least `rounds` requests: greedy covering array"""
+    rng = ctx.rng
+    dims = sorted(PAIR_DIMS)
+    need = {(a, i, b, j) for x, a in enumerate(dims) for b in dims[x + 1:]
+            for i in range(len(PAIR_DIMS[a])) for j in range(len(PAIR_DIMS[b]))
+            if _pair_ok(a, PAIR_DIMS[a][i], b, PAIR_DIMS[b][j])}
+    total = len(need)
+    order = sorted(need)
+    out = []
+    for _ in range(rounds):
+        todo = set(need)
+        ptr = 0
+        while todo:
+            while order[ptr] not in todo:
+                ptr += 1
+            seedp = order[ptr]                       # the first pair (in a fixed order) not covered yet
+            best, gain = None, -1
+            for _try in range(30):
+                cand = {d: rng.randrange(len(PAIR_DIMS[d])) for d in dims}
+                cand[seedp[0]], cand[seedp[2]] = seedp[1], seedp[3]
+                if cand["fill"] == PAIR_DIMS["fill"].index("frac") and PAIR_DIMS["dtype"][cand["dtype"]] in INT_DTYPES:
+                    if seedp[0] == "dtype" or seedp[2] == "dtype":
+                        cand["fill"] = 0
+                    else:
+                        cand["dtype"] = 0
+                cov = sum(1 for x, a in enumerate(dims) for b in dims[x + 1:] if (a, cand[a], b, cand[b]) in todo)
+                if cov > gain:
+                    best, gain = cand, cov
+            for x, a in enumerate(dims):
+                for b in dims[x + 1:]:
+                    todo.discard((a, best[a], b, best[b]))
+            out.append(_general_case(ctx, rng, {d: PAIR_DIMS[d][best[d]] for d in dims}))
+    ctx.exhaustive["rasterize_all-pairwise"] = (f"all {total} admissible pairs of option values over {len(dims)} option classes "
+                                                f"({', '.join(dims)}) in {len(out)} requests")
+    for inp in out:
+        inp["twice"] = False
+    return out
 
 
 def _monitor_cases(ctx, n):
@@ -708,20 +910,519 @@ def _monitor_cases(ctx, n):
                "values": rng.sample(range(1, 9), k), "fill": rng.choice([0, -1]), "dtype": "float32", "all_touched": False}
 
 
+# ---- HISTORIES.md 4: every lattice point of non-dyadic axes, tolerance-sized offsets, size thresholds
+LATTICE_AXES = [
+    # (which, constructor spec, number of bins of the other axis)
+    ("time", {"start": "0", "stop": "1", "samplerate": 100}),            # create_time_range(0, 1, samplerate=100)
+    ("time", ["1/2", "11/10", "1/100"]),                                  # create_time_range(0.5, 1.1, step=0.01)
+    ("time", {"start": "0", "stop": "1", "samplerate": 10}),
+    ("time", ["0", "3/10", "1/250"]),                                     # step 0.004
+    ("freq", ["0", "10", "1/10"]),                                        # create_frequency_range(0, 10, step=0.1)
+    ("freq", ["0", "2002", "1001/10"]),                                   # step 100.1
+    ("freq", ["1000", "2033584/1000", "43066/1000"]),                     # step 43.066 from 1000 Hz
+]
+LATTICE_AXES_THOROUGH = [("time", {"start": "0", "stop": "1", "samplerate": 1000}), ("freq", ["0", "50", "1/20"]),
+                         ("time", ["3", "4", "1/300"]), ("freq", ["0", "12000", "1000/3"])]
+
+
+def _built_axis(which, spec):
+    """the coordinates a range constructor of the library gives for `spec` (the request then records these numbers);
+    should the constructor fail (it is C16's subject, not C20's) the same lattice comes from numpy directly"""
+    import numpy as np
+    from soundevent import arrays
+    if isinstance(spec, dict):
+        a, b, s = float(frac(spec["start"])), float(frac(spec["stop"])), 1.0 / spec["samplerate"]
+    else:
+        a, b, s = (float(frac(x)) for x in spec)
+    try:
+        if isinstance(spec, dict):
+            var = arrays.create_time_range(a, b, samplerate=spec["samplerate"])
+        else:
+            var = arrays.create_time_range(a, b, step=s) if which == "time" else arrays.create_frequency_range(a, b, step=s)
+        vals = [float(x) for x in var.values]
+    except Exception:  # noqa: BLE001
+        vals = []
+    if not vals or any(y <= x for x, y in zip(vals, vals[1:])):
+        vals = [float(x) for x in np.arange(a, b - s / 2, s)]
+    return vals, s
+
+
+def _lattice_variants(coords, k, start, step):
+    """positions that all belong to lattice point k: the coordinate the template carries, the decimal number a
+    user writes for it (start + k * step rounded to 12 decimals, k / samplerate), one ulp either side"""
+    c = coords[k]
+    lit = round(start + k * step, 12)
+    out = [("coord", c), ("decimal", lit), ("quot", start + k / (1 / step)), ("ulp-up", ulp_up(c)), ("ulp-down", ulp_down(c))]
+    if k + 1 < len(coords):
+        out.append(("centre", (c + coords[k + 1]) / 2))
+    seen, uniq = set(), []
+    for n, p in out:                  # the decimal literal / quotient usually *are* the stored coordinate
+        if p >= 0 and p not in seen:
+            seen.add(p)
+            uniq.append((n, p))
+    return uniq
+
+
+def _lattice_cases(ctx, axes):
+    """boxes (and a few points / stamps / intervals) whose corners sweep every lattice point and every bin centre of
+    axes built by create_time_range / create_frequency_range with a non-dyadic step stored in the 'step' attribute"""
+    rng = ctx.rng
+    boxes, others = [], []
+    for which, spec in axes:
+        coords, step = _built_axis(which, spec)
+        n = len(coords)
+        other = [0.0, 0.5, 1.0] if which == "freq" else [0.0, 100.0, 200.0, 300.0]
+        w = max(n // 5, 1)
+        for k in range(n):
+            for name, p in _lattice_variants(coords, k, coords[0], step):
+                k2 = (k + w) if k + w < n else None
+                q = rng.choice(_lattice_variants(coords, k2, coords[0], step))[1] if k2 is not None else coords[-1] + 3 * step
+                lo, hi = (p, q) if p <= q else (q, p)
+                if k2 is None and rng.random() < 0.5 and k >= 1:          # the lattice point as the *end* of a box
+                    lo, hi = coords[rng.randrange(0, k)], p
+                a, b = sorted(rng.sample([0.0] + [c + (other[1] - other[0]) / 2 for c in other] + [other[-1] * 2 + 1], 2))
+                if which == "time":
+                    geom = {"type": "BoundingBox", "coordinates": [rat(lo), rat(a), rat(hi), rat(b)]}
+                    t, fr = coords, other
+                else:
+                    geom = {"type": "BoundingBox", "coordinates": [rat(a), rat(lo), rat(b), rat(hi)]}
+                    t, fr = other, coords
+                inp = {"time": rats(t), "freq": rats(fr), "time_first": rng.random() < 0.5, "geoms": [geom],
+                       "values": [rng.choice([1, 2, 5])], "fill": rng.choice([0, 0, -1]), "dtype": "float32",
+                       "all_touched": rng.random() < 0.3, "contents": 0,
+                       which + "_via": "range", which + "_range": spec}
+                ctx.tally(f"lattice:{which}:{name}")
+                boxes.append(inp)
+                if name in ("coord", "decimal", "quot") and rng.random() < 0.25:
+                    if which == "time":
+                        g2 = rng.choice([{"type": "TimeStamp", "coordinates": rat(p)},
+                                         {"type": "Point", "coordinates": [rat(p), rat(rng.choice(other))]},
+                                         {"type": "TimeInterval", "coordinates": [rat(lo), rat(hi)]}])
+                    else:
+                        g2 = {"type": "Point", "coordinates": [rat(rng.choice(other)), rat(p)]}
+                    others.append({**inp, "geoms": [g2], "all_touched": None, "twice": False})
+        ctx.exhaustive[f"lattice:{which}:{json.dumps(spec)}"] = (
+            f"every one of the {n} lattice points (as the stored coordinate, the decimal literal, the quotient k/(1/step), "
+            f"one ulp above and below) and every bin centre, as a box corner")
+    return boxes, others
+
+
+def _near(c, scale):
+    """tolerance-sized offsets around a comparison point: one ulp, 1e-12 ... 1e-6 relative to the magnitude"""
+    out = [c, ulp_up(c), ulp_down(c)]
+    for e in (1e-12, 1e-10, 1e-9, 1e-8, 1e-6):
+        out += [c + e * scale, c - e * scale]
+    return [p for p in out if p >= 0]
+
+
+def _edge_cases(ctx, n):
+    """HISTORIES.md 4: every comparison the property pins (value < first coordinate, value > last coordinate, the
+    bin edges) with the value an ulp / 1e-12 ... 1e-6 relative either side and exactly on it, at small and large
+    magnitudes (time axes at 0 s and at 1e6 s, frequency axes at 0 Hz and at 1e5 Hz, steps 1e-3 ... 1e3)"""
+    rng = ctx.rng
+    for _ in range(n):
+        nt, nf = rng.randint(2, 6), rng.randint(2, 6)
+        t0, ts = rng.choice([0.0, 0.5, 1e6, 86400.0]), rng.choice([0.5, 0.01, 1e-3, 0.1, 64.0])
+        f0, fs = rng.choice([0.0, 1e5, 22050.0, 0.25]), rng.choice([125.0, 43.066, 1000.0, 1e-2])
+        t, fr = [t0 + i * ts for i in range(nt)], [f0 + i * fs for i in range(nf)]
+        tp = [p for c in t for p in _near(c, max(abs(c), ts))]
+        fp = [p for c in fr for p in _near(c, max(abs(c), fs))]
+        geoms = []
+        for _g in range(rng.choice([1, 1, 2])):
+            ty = rng.choice(["BoundingBox", "BoundingBox", "TimeInterval", "Point", "TimeStamp", "LineString"])
+            a, b = sorted(rng.sample(tp, 2))
+            c, d = sorted(rng.sample(fp, 2))
+            coords = {"BoundingBox": [rat(a), rat(c), rat(b), rat(d)], "TimeInterval": [rat(a), rat(b)],
+                      "Point": [rat(a), rat(c)], "TimeStamp": rat(a), "LineString": [[rat(a), rat(c)], [rat(b), rat(d)]]}[ty]
+            geoms.append({"type": ty, "coordinates": coords})
+        ctx.tally("edges:magnitude:" + ("large" if t0 >= 1e4 or f0 >= 1e4 else "small"))
+        via = rng.choice(["array", "array_step", "plain"])
+        yield {"time": rats(t), "freq": rats(fr), "time_first": rng.random() < 0.5, "geoms": geoms,
+               "values": [rng.choice([1, 2, 3, 5]) for _ in geoms], "fill": rng.choice([None, 0, -1]), "dtype": None,
+               "all_touched": rng.choice([None, False, True]), "contents": 0, "time_via": via, "freq_via": via}
+
+
+def _ring(n, ct, cf, rt, rf, q=64, rng=None):
+    """a simple closed polygon ring with n vertices around (ct, cf): star-shaped, vertices on a 1/q grid, the radius
+    alternating between the full one and a (random) smaller one"""
+    import math
+    pts = []
+    for i in range(n):
+        a = 2 * math.pi * i / n
+        r = 1.0 if i % 2 == 0 else (0.93 if rng is None else rng.uniform(0.55, 0.95))
+        p = [Fraction(round((ct + rt * r * math.cos(a)) * q), q), Fraction(round((cf + rf * r * math.sin(a)) * q), q)]
+        if not pts or p != pts[-1]:
+            pts.append(p)
+    if pts[-1] == pts[0]:
+        pts.pop()
+    return [[rat(max(x, 0)), rat(max(y, 0))] for x, y in pts + [pts[0]]]
+
+
+def _size_cases(ctx):
+    """HISTORIES.md 4: sizes at which an implementation could switch strategy - more than 16 geometries / values,
+    more than 256 and 1024 vertices in one geometry, 1024 and more geometries, axes of 1024 and more bins"""
+    rng = ctx.rng
+    out = []
+    t, fr = [i * 0.5 for i in range(8)], [i * 1.0 for i in range(6)]
+    tp, fp = _positions(rng, t), _positions(rng, fr)
+    base = {"time": rats(t), "freq": rats(fr), "fill": 0, "dtype": "float32", "all_touched": False, "contents": 0}
+    for ngeo in (16, 17, 33, 257) + ((1024, 1025) if ctx.thorough() else (1025,)):
+        geoms = [_box(rng, tp, fp) if rng.random() < 0.7 else _snap(rng, {"type": "Point"}, tp, fp) for _ in range(ngeo)]
+        vals = [rng.choice([1, 2, 3, 4, 5, 6, 7, 8]) for _ in geoms]
+        out.append({**base, "time_first": rng.random() < 0.5, "geoms": geoms, "values": vals})
+        if ngeo < 100:
+            out.append({**base, "time_first": rng.random() < 0.5, "geoms": geoms, "values": 3, "values_tuple": False})
+        ctx.tally(f"sizes:geometries:{ngeo}")
+    wt, wf = [i * 0.5 for i in range(16)], [i * 1.0 for i in range(12)]
+    wide = {**base, "time": rats(wt), "freq": rats(wf)}
+    for nv in (16, 17, 256, 257, 1024, 1025) + ((1023,) if ctx.thorough() else ()):
+        geoms = []
+        for _p in range(3 if nv < 1000 or ctx.thorough() else 1):   # polygons with nv vertices, jagged outline, with a hole
+            ct, cf = rng.uniform(2.5, 5.0), rng.uniform(3.5, 7.5)
+            ring = _ring(nv, ct, cf, rng.uniform(1.5, 2.4), rng.uniform(2.0, 3.4), q=4096, rng=rng)
+            hole = _ring(max(nv // 8, 3), ct, cf, 0.4, 0.5, q=4096)
+            g = {"type": "Polygon", "coordinates": [ring, hole]}
+            if gen_geom.is_simple(g):
+                geoms.append(g)
+        line = [[rat(Fraction(i * 7, nv)), rat(Fraction(11 * ((i * 5) % 7), 7))] for i in range(nv)]
+        mpts = [[rat(Fraction((i * 37) % 750, 100)), rat(Fraction((i * 11) % 1150, 100))] for i in range(nv)]
+        geoms += [{"type": "LineString", "coordinates": line}, {"type": "MultiPoint", "coordinates": mpts}]
+        for g in geoms:
+            out.append({**wide, "time_first": rng.random() < 0.5, "geoms": [g], "values": [2],
+                        "all_touched": rng.random() < 0.5})
+        ctx.tally(f"sizes:vertices:{nv}", len(geoms))
+    for nbins in (1023, 1024, 1025) if ctx.thorough() else (1024, 1025):
+        for kind in ("dyadic", "decimal", "irregular"):
+            if kind == "dyadic":
+                big = [i * 0.25 for i in range(nbins)]
+            elif kind == "decimal":
+                big = [0.5 + i * 0.01 for i in range(nbins)]
+            else:
+                big = [i * 0.25 + (0.125 if i % 3 == 1 else 0.0) + i * i * 1e-4 for i in range(nbins)]
+            small = [0.0, 1.0, 2.0]
+            for which in ("time", "freq"):
+                tt, ff = (big, small) if which == "time" else (small, big)
+                btp, bfp = _positions(rng, tt), _positions(rng, ff)
+                geoms = [_box(rng, btp, bfp) for _ in range(3)]
+                out.append({**base, "time": rats(tt), "freq": rats(ff), "time_first": rng.random() < 0.5, "geoms": geoms,
+                            "values": [1, 2, 3], which + "_via": "array_step" if kind == "decimal" else "array"})
+        ctx.tally(f"sizes:bins:{nbins}")
+    return out
+
+# ------------------------------------------------------------------ histories (harness/history.py, HISTORIES.md 1)
+# Consecutive rasterize calls in one process on shared identities.  Every step is judged like a case of
+# `rasterize_all` (the Lean model is pure: the session theorem C20_history_independent says the k-th answer of a
+# session is the answer to the k-th request alone); arguments are snapshotted around every call; results are
+# poisoned by the caller and re-read after later calls.
+TPL_KEYS = ("time", "freq", "time_first", "extra_dim", "contents", "time_via", "freq_via", "time_range", "freq_range",
+            "time_step", "freq_step", "tpl_how", "time_dtype", "freq_dtype")
+H_REUSE = ("same_template", "same_geoms", "tpl_coords_assign", "tpl_data_inplace", "geom_assign", "geom_inplace",
+           "geom_copy_update", "geom_deep_copy_update", "list_inplace")
+
+
+def _same(a, b, keys):
+    return all(a.get(k) == b.get(k) for k in keys)
+
+
+def _tpl_assignable(inp):
+    return inp.get("tpl_how") in (None, "int_data", "coords_rev")
+
+
+def _h_applicable(prev, inp):
+    """the ways in which the live objects of the previous step can be turned into the arguments of this step"""
+    hows = []
+    same_tpl = _same(prev, inp, TPL_KEYS)
+    same_geoms = prev["geoms"] == inp["geoms"] and _same(prev, inp, ("geom_build", "geoms_seq"))
+    if same_tpl:
+        hows += ["same_template", "tpl_data_inplace"]
+    elif (_same(prev, inp, ("time_first", "extra_dim", "tpl_how")) and _tpl_assignable(inp)
+          and len(prev["time"]) == len(inp["time"]) and len(prev["freq"]) == len(inp["freq"])):
+        hows += ["tpl_coords_assign", "tpl_coords_assign"]
+    if same_geoms:
+        hows.append("same_geoms")
+    elif any(a["type"] == b["type"] for a, b in zip(prev["geoms"], inp["geoms"])):
+        hows += ["geom_assign", "geom_inplace", "geom_copy_update", "geom_deep_copy_update"]
+    if prev.get("geoms_seq") != "tuple" and inp.get("geoms_seq") != "tuple" and not same_geoms:
+        hows.append("list_inplace")
+    return hows
+
+
+def _h_sequences(ctx, rng, cases, n, length=(3, 5)):
+    """n histories: x, a neighbour of x, x again, ...; a step reuses the live objects of the step before in a way
+    that applies to the pair (every object whose content is unchanged stays the same Python object)"""
+    out = []
+    for i in range(n):
+        x = cases[i % len(cases)]
+        try:
+            neigh = _h_variants(x, rng)
+        except Exception:  # noqa: BLE001 - a case without neighbours still has other cases
+            neigh = []
+        seq, prev = [{"inp": copy.deepcopy(x)}], x
+        L = rng.randint(*length)
+        while len(seq) < L:
+            y = rng.choice(neigh) if neigh and rng.random() < 0.85 else rng.choice(cases)
+            for z in ([y, x] if rng.random() < 0.7 else [y]):
+                if len(seq) >= L:
+                    break
+                st = {"inp": copy.deepcopy(z)}
+                hows = _h_applicable(prev, z)
+                changing = [h for h in hows if h not in ("same_template", "same_geoms", "tpl_data_inplace")]
+                if changing and rng.random() < 0.7:          # an object that was used, is changed and is used again
+                    st["reuse"] = rng.choice(changing)
+                elif hows and rng.random() < 0.7:
+                    st["reuse"] = rng.choice(hows)
+                seq.append(st)
+                prev = z
+        for st in seq[:-1]:
+            if rng.random() < 0.35:
+                st["poison"] = True
+        for st in seq:
+            ctx.tally("history:" + (st.get("reuse") or "fresh") + ("+poison" if st.get("poison") else ""))
+        out.append({"seq": seq})
+    return out
+
+
+def _h_build(inp):
+    return {"inp": inp, "geoms": B.geometries(inp), "tpl": B.template(inp), "kw": B.optional_args(inp)}
+
+
+def _h_call(args):
+    return B.call(args["inp"], args["geoms"], args["tpl"], kw=args["kw"])
+
+
+def _h_canon(inp, args, res):
+    return _canon(res, inp)
+
+
+def _h_snapshot(args):
+    return {"tpl": B.template_snapshot(args["tpl"]), "geoms": B.geometries_snapshot(args["geoms"]),
+            "kw": sorted((k, repr(v)) for k, v in args["kw"].items())}
+
+
+def _set_in_place(old, new):
+    """overwrite the numbers of a nested coordinate list in place; False when the nesting differs"""
+    if isinstance(old, list) and isinstance(new, list) and len(old) == len(new):
+        if all(not isinstance(x, list) for x in new) and all(not isinstance(x, list) for x in old):
+            old[:] = new
+            return True
+        if all(isinstance(x, list) for x in new) and all(isinstance(x, list) for x in old):
+            return all(_set_in_place(o, n) for o, n in zip(old, new))
+    return False
+
+
+def _h_modify(args, inp, how):
+    """the live objects of the previous step turned into the arguments of this step: nothing a template, a geometry
+    or a list remembered from its earlier use may survive the change.  Whatever is unchanged between the two steps
+    stays the same Python object (the template when only geometries change, the geometries when only the template
+    changes), so that anything keyed by identity meets changed content"""
+    try:
+        return _h_modified(args, inp, how)
+    except Exception:  # noqa: BLE001 - objects that can no longer be edited this way are simply built afresh
+        return None
+
+
+def _h_modified(args, inp, how):
+    import numpy as np
+    prev = args["inp"]
+    if how not in _h_applicable(prev, inp):
+        return None
+    same_tpl = _same(prev, inp, TPL_KEYS)
+    same_geoms = prev["geoms"] == inp["geoms"] and _same(prev, inp, ("geom_build", "geoms_seq"))
+    tpl = args["tpl"] if same_tpl else None
+    geoms = args["geoms"] if same_geoms else None
+    if how == "tpl_data_inplace":                # the template's contents are not part of the request
+        tpl.values[...] = np.random.RandomState(len(inp["geoms"]) + 7).uniform(-9, 9, size=tpl.shape).astype(tpl.dtype)
+    elif how == "tpl_coords_assign":
+        tpl = args["tpl"]                        # the same DataArray object with its coordinates replaced
+        tpl.coords["time"] = B.axis_variable(inp, "time")
+        tpl.coords["frequency"] = B.axis_variable(inp, "freq")
+    elif how in ("geom_assign", "geom_inplace", "geom_copy_update", "geom_deep_copy_update", "list_inplace"):
+        fresh = B.geometries(inp)                # the validated form of the new content
+        old = list(args["geoms"])
+        out = []
+        for k, g in enumerate(fresh):
+            o = old[k] if k < len(old) and old[k].type == g.type else None
+            if o is None or how == "list_inplace":
+                out.append(g)
+            elif how == "geom_assign":
+                o.coordinates = g.coordinates
+                out.append(o)
+            elif how == "geom_inplace":
+                if not _set_in_place(o.coordinates, g.coordinates):
+                    o.coordinates = g.coordinates
+                out.append(o)
+            else:
+                out.append(o.model_copy(update={"coordinates": g.coordinates}, deep=(how == "geom_deep_copy_update")))
+        if how == "list_inplace" and isinstance(args["geoms"], list):
+            geoms = args["geoms"]
+            geoms[:] = out                       # the caller's list object, refilled
+        else:
+            geoms = tuple(out) if inp.get("geoms_seq") == "tuple" else out
+    kw = B.optional_args(inp)
+    if how == "list_inplace" and isinstance(args["kw"].get("values"), list) and isinstance(kw.get("values"), list):
+        vals = args["kw"]["values"]
+        vals[:] = kw["values"]
+        kw["values"] = vals
+    return {"inp": inp, "geoms": geoms if geoms is not None else B.geometries(inp),
+            "tpl": tpl if tpl is not None else B.template(inp), "kw": kw}
+
+
+def _h_poison(res):
+    """the caller edits the raster it got back (it is the caller's): nothing may be shared with later calls"""
+    try:
+        res.values[...] = 99
+        res.attrs["edited"] = True
+    except Exception:  # noqa: BLE001 - a read-only result cannot be poisoned
+        return False
+    return True
+
+
+def _h_variants(x, rng):
+    """neighbours of a request: exactly one part changed, everything else (identities included) the same"""
+    out = []
+    pool = _value_pool(x.get("dtype") or "float32", 0 if x.get("fill") is None else x["fill"])
+    # same template (same shape and dtype): other geometries / values / fill
+    tp, fp = _positions(rng, fl(x["time"])), _positions(rng, fl(x["freq"]))
+    k = rng.choice([1, 1, 2, 3])
+    geoms = [_box(rng, tp, fp) if rng.random() < 0.6 else
+             gen_geom.gen_valid(rng, rng.choice(ALL_TYPES), tmax=max(tp[-1], 1.5), fmax=max(fp[-1], 1.5), k=3)
+             for _ in range(k)]
+    out.append({**x, "geoms": geoms, "values": [rng.choice(pool) for _ in geoms]})
+    if isinstance(x.get("values"), list) and len(x["values"]) == len(x["geoms"]) and x["geoms"]:
+        out.append({**x, "values": [rng.choice(pool) for _ in x["geoms"]]})
+        out.append({**x, "values": list(reversed(x["values"]))})
+    # the same geometry types with every vertex moved by one time / frequency step (in-place edits keep the nesting)
+    ts = (fl(x["time"])[1] - fl(x["time"])[0]) if len(x["time"]) > 1 else 0.5
+    fs = (fl(x["freq"])[1] - fl(x["freq"])[0]) if len(x["freq"]) > 1 else 0.5
+    if x["geoms"]:
+        for _w in range(2):                      # (twice: these are the neighbours in-place edits apply to)
+            out.append({**x, "geoms": [_shifted(g, ts, fs) for g in x["geoms"]]})
+            out.append({**x, "geoms": [_shifted(g, 2 * ts, 0.0) for g in x["geoms"]]})
+    unsigned = x.get("dtype") == "uint8"
+    out.append({**x, "fill": rng.choice([5, 7] if unsigned else [-1, 7, 5])})
+    out.append({**x, "all_touched": not x.get("all_touched")})
+    other = [d for d in DTYPES if d != x.get("dtype") and _fits(x, d)]
+    if other:
+        out.append({**x, "dtype": rng.choice(other)})
+    # a plain call after a call with options (options must not leak into module state)
+    out.append({**x, "values": None, "fill": None, "dtype": None, "all_touched": None, "call_as": "kw"})
+    # the same geometries on another template of the same shape / on the transposed template
+    out.append({**x, "time_first": not x["time_first"]})
+    scaled = {"time": rats([2 * c + 0.5 for c in fl(x["time"])]), "freq": rats([c / 2 + 1 for c in fl(x["freq"])]),
+              "time_via": "array", "freq_via": "array", "time_dtype": None, "freq_dtype": None}
+    out.append({**x, **scaled, "tpl_how": None})
+    for _w in range(2):                          # same kind of template object: its coordinates can be re-assigned
+        out.append({**x, **scaled})
+    if len(x["time"]) != len(x["freq"]):
+        out.append({**x, "time": x["freq"], "freq": x["time"], "time_via": "array", "freq_via": "array", "tpl_how": None,
+                    "time_dtype": None, "freq_dtype": None})
+    return out
+
+
+def _shifted(g, dt, df):
+    """the geometry translated by (dt, df): same type, same nesting, still valid"""
+    ty, c = g["type"], g["coordinates"]
+    mv = lambda p: [rat(float(frac(p[0])) + dt), rat(float(frac(p[1])) + df)]
+    if ty == "TimeStamp":
+        cc = rat(float(frac(c)) + dt)
+    elif ty == "TimeInterval":
+        cc = [rat(float(frac(v)) + dt) for v in c]
+    elif ty == "Point":
+        cc = mv(c)
+    elif ty == "BoundingBox":
+        cc = mv(c[:2]) + mv(c[2:])
+    elif ty in ("LineString", "MultiPoint"):
+        cc = [mv(p) for p in c]
+    elif ty in ("MultiLineString", "Polygon"):
+        cc = [[mv(p) for p in r] for r in c]
+    else:
+        cc = [[[mv(p) for p in r] for r in poly] for poly in c]
+    return {"type": ty, "coordinates": cc}
+
+
+def _fits(x, dtype):
+    """the request's fill and values are representable in the dtype (the property's domain)"""
+    nums = [x.get("fill")] + (x["values"] if isinstance(x.get("values"), list) else [x.get("values")])
+    nums = [frac(v) for v in nums if v is not None]
+    if dtype in ("float32", "float64"):
+        return True
+    return all(v.denominator == 1 for v in nums) and (dtype != "uint8" or all(v >= 0 for v in nums))
+
+
+OPS["raster_history"] = history.history_op("raster_history", OPS["rasterize_all"], _h_build, _h_call, _h_canon,
+                                           snapshot=_h_snapshot, modify=_h_modify, poison=_h_poison)
+
+
+def _stage_pairwise(ctx):
+    ctx.run_cases(OPS["rasterize_all"], _pairwise_cases(ctx, ctx.budget(1, 4)))
+
+
+def _stage_lattice(ctx):
+    boxes, others = _lattice_cases(ctx, LATTICE_AXES + (LATTICE_AXES_THOROUGH if ctx.thorough() else []))
+    ctx.run_cases(OPS["rasterize"], boxes)
+    ctx.run_cases(OPS["rasterize_all"], others)
+
+
+def _stage_edges(ctx):
+    ctx.run_cases(OPS["rasterize_all"], _edge_cases(ctx, ctx.budget(300, 4000)))
+
+
+def _stage_sizes(ctx):
+    ctx.run_cases(OPS["rasterize_all"], _size_cases(ctx))
+
+
+def _history_base(ctx, n):
+    """small requests for the histories: explicit per-geometry value lists so that neighbours can permute them"""
+    out = []
+    for _ in range(n):
+        inp = _general_case(ctx, ctx.rng, {"values_kind": ctx.rng.choice(["list", "list", "tuple", "scalar"])})
+        inp["twice"] = False
+        out.append(inp)
+    return out
+
+
+def _stage_histories(ctx):
+    """consecutive calls in one process: the same template with other geometries / values / fill / dtype /
+    all_touched, the same geometries on other templates, template / geometry / list objects that were used, changed
+    (assignment, in place, model_copy) and used again, results edited by the caller, results re-read after later calls"""
+    rng = ctx.rng
+    base = _history_base(ctx, ctx.budget(60, 600))
+    ctx.run_cases(OPS["raster_history"], _h_sequences(ctx, rng, base, ctx.budget(150, 1000)))
+
+
 def run(ctx):
-    ctx.stage("corpus", ctx.run_corpus, OPS)
-    ctx.stage("tables", _tables, ctx)
-    ctx.stage("symbolic", _symbolic, ctx)
-    ctx.stage("discharge", ctx.discharge, ["SoundeventModel.Raster", "SoundeventModel.Tactics", "Proofs.C20"])
-    ctx.stage("rasterio-box-rule", _rasterio_contract, ctx)
-    ctx.stage("rasterio-point-rule", _point_contract, ctx)
-    ctx.stage("rasterize-exact", lambda: ctx.run_cases(OPS["rasterize"], _raster_cases(ctx, ctx.budget(6, 60))))
+    import time
+    walls = []
+
+    def stage(name, fn, *args):
+        t0 = time.time()
+        ctx.stage(name, fn, *args)
+        walls.append(f"{name} {time.time() - t0:.1f}")
+
+    stage("corpus", ctx.run_corpus, OPS)
+    stage("tables", _tables, ctx)
+    stage("symbolic", _symbolic, ctx)
+    stage("discharge", ctx.discharge, ["SoundeventModel.Raster", "SoundeventModel.Tactics", "Proofs.C20"])
+    stage("rasterio-box-rule", _rasterio_contract, ctx)
+    stage("rasterio-point-rule", _point_contract, ctx)
+    stage("rasterize-exact", lambda: ctx.run_cases(OPS["rasterize"], _raster_cases(ctx, ctx.budget(6, 60))))
     ctx.exhaustive["rasterize"] = "every template shape 1-8 x 1-8, both dimension orders"
-    ctx.stage("rasterize-all-types", lambda: ctx.run_cases(OPS["rasterize_all"], _general_cases(ctx, ctx.budget(900, 12000))))
-    ctx.stage("polygon-monitor", lambda: ctx.run_cases(OPS["raster_monitor"], _monitor_cases(ctx, ctx.budget(150, 3000))))
+    stage("lattice-sweep", _stage_lattice, ctx)
+    stage("option-pairs", _stage_pairwise, ctx)
+    stage("rasterize-all-types", lambda: ctx.run_cases(OPS["rasterize_all"], _general_cases(ctx, ctx.budget(700, 9000))))
+    stage("edge-offsets", _stage_edges, ctx)
+    stage("size-thresholds", _stage_sizes, ctx)
+    stage("histories", _stage_histories, ctx)
+    stage("polygon-monitor", lambda: ctx.run_cases(OPS["raster_monitor"], _monitor_cases(ctx, ctx.budget(150, 3000))))
+    ctx.note("stage wall times (s): " + ", ".join(walls))
 
 
 def search(ctx, failures):
     ctx.run_cases(OPS["rasterize"], _raster_cases(ctx, 10))
+    boxes, others = _lattice_cases(ctx, LATTICE_AXES)
+    ctx.run_cases(OPS["rasterize"], boxes)
+    ctx.run_cases(OPS["rasterize_all"], others)
     ctx.run_cases(OPS["rasterize_all"], _general_cases(ctx, 1500))
+    ctx.run_cases(OPS["rasterize_all"], _edge_cases(ctx, 300))
+    ctx.run_cases(OPS["raster_history"], _h_sequences(ctx, ctx.rng, _history_base(ctx, 80), 200))
     ctx.run_cases(OPS["raster_monitor"], _monitor_cases(ctx, 300))
